@@ -17,6 +17,11 @@ claimed["C19"] = dict(
    note="Trusted: govc and the SMT solvers; assumed contracts of sort.Slice / sort.SliceStable (permutation without inversions; stable keeps ties in order) and of strings.Builder (append-only string) and Go map semantics; string '<' is an uninterpreted strict total order. The step from 'sorted by (priority, ID), same elements, equal IDs carry equal content' to 'the text is the same for every input order' is the uniqueness of sorted permutations, proved once in Lean 4 core (lemmas/sorted_perm_unique.lean, re-checked in the thorough tier; the correspondence between the Lean statement and the SMT postconditions is by hand) and exercised exhaustively by the bounded harness in the thorough tier.",
    ref="DESIGN §4 C19")
 
+claimed["C10"] = dict(
+   text="Deductive proof of contracts taken from the property statement. fetchPkgEnums: a named type is a key of the result exactly when the package scope holds a typed constant of it whose trailing comment does not opt out; while the member lists are built (loop 1) each list holds exactly those constants, each with its comment (invariants 5-6), distinct enums own distinct objects. setIsIota: members are only permuted; IsIota implies integer-backed, all values non-negative int64, values sorted over all members, pairwise distinct and downward closed over the exported ones (hence the k-th exported member has value k); and conversely every such block is flagged (completeness). sortBy.Swap/Less/Len are verified and, inside sort.Sort, Swap is proved to exchange both parallel slices and Less to be a strict weak order.",
+   note="Trusted: govc and the SMT solvers; assumed contracts: sort.Sort (calls Len, then only Less/Swap in range; no inversion on return), go/types and go/constant accessors as pure functions (Scope.Names/Lookup, Const.Val/Type/Exported, constant.Int64Val), Go map semantics; fetchConstComment (syntax-tree navigation) is assumed to be a function of the constant returning its trailing comment; two finite-set counting lemmas (a subset of {0..m} with m+1 elements is {0..m}; {0..m} has m+1 elements) are axioms of the background theory; the last step 'sorted + distinct + downward closed => k-th exported value is k' is arithmetic not re-proved by SMT. After loop 2 of fetchPkgEnums the member-list facts are carried only through setIsIota's own contract (members permuted), not re-proved as a postcondition. The walk over imported packages is under C07/C11.",
+   ref="DESIGN §4 C10")
+
 not_applicable = {
  "C01": "type-checking of emitted Go text for all inputs needs a typing judgement over Sprintf templates; no contract on a Go function returning a string can express it (DESIGN §5)",
  "C02": "round trip and wire bytes are run-time behaviour of the emitted wrappers under encoding/json; a contract on the generator can only restate its templates (DESIGN §5)",
